@@ -921,6 +921,9 @@ func sizeBoundedDepth(p *core.Prog, f *core.Func, g *core.Graph, n *core.GNode, 
 				bounded = true
 			}
 		}
+		if !bounded && boundedByValidatingMethod(p, f, g, n, v) {
+			bounded = true
+		}
 		if !bounded {
 			return false, ""
 		}
@@ -1716,4 +1719,177 @@ func selfGuardingDecoder(p *core.Prog, info *types.Info, c *ast.CallExpr, w int6
 		}
 	}
 	return n > 0 && okAll
+}
+
+var boundedDepth = 0
+
+// upperBoundFact: the fact bounds the printed operand v from above (v > L refused, v <= L taken, ...).
+func upperBoundFact(fc core.Fact, v string) bool {
+	be, ok := core.Unparen(fc.Expr).(*ast.BinaryExpr)
+	if !ok || fc.Tag != nil || !strings.Contains(core.ExprStr(fc.Expr), v) {
+		return false
+	}
+	lhsHas := strings.Contains(core.ExprStr(be.X), v)
+	switch be.Op {
+	case token.GTR, token.GEQ:
+		return (lhsHas && !fc.Truth) || (!lhsHas && fc.Truth)
+	case token.LSS, token.LEQ:
+		return (lhsHas && fc.Truth) || (!lhsHas && !fc.Truth)
+	case token.EQL:
+		return fc.Truth
+	case token.NEQ:
+		return !fc.Truth
+	}
+	return false
+}
+
+// boundedByValidatingMethod: the operand v of an allocation size in method f is (a copy of) a field of f's receiver, and on
+// the way to n a method of the same receiver was called and answered nil whose every success return knows an upper bound of
+// that field: capacity := read(); i.capacity = capacity; if err := i.checkCapacity(left); err != nil { return err };
+// make([]T, capacity).
+func boundedByValidatingMethod(p *core.Prog, f *core.Func, g *core.Graph, n *core.GNode, v string) bool {
+	rv := f.RecvObj()
+	if rv == nil || n == nil {
+		return false
+	}
+	info := f.Pkg.TypesInfo
+	field := ""
+	if strings.HasPrefix(v, rv.Name()+".") && !strings.Contains(v[len(rv.Name())+1:], ".") {
+		field = v[len(rv.Name())+1:]
+	} else {
+		// a local assigned once whose value is stored into the field before n
+		nAssign := 0
+		var store *core.GNode
+		for _, nd := range stmtNodes(g) {
+			as, ok := nd.Ast.(*ast.AssignStmt)
+			if !ok {
+				continue
+			}
+			for i, l := range as.Lhs {
+				if id, isId := core.Unparen(l).(*ast.Ident); isId && id.Name == v {
+					nAssign++
+				}
+				if sel, isSel := core.Unparen(l).(*ast.SelectorExpr); isSel && len(as.Lhs) == len(as.Rhs) && core.ObjOf(info, sel.X) == rv {
+					if rid, isId := core.Unparen(as.Rhs[i]).(*ast.Ident); isId && rid.Name == v && g.Dominates(nd, n) {
+						field, store = sel.Sel.Name, nd
+					}
+				}
+			}
+		}
+		if nAssign != 1 || store == nil {
+			return false
+		}
+	}
+	if field == "" {
+		return false
+	}
+	// the field is bounded before every call of this (unexported) method: unmarshal calls readHeader (validates), then readValues
+	if depth0 := strings.HasPrefix(v, rv.Name()+"."); depth0 && f.Obj != nil && !f.Obj.Exported() && f.Lit == nil && boundedDepth < 2 {
+		callers := p.Callers(f)
+		all := len(callers) > 0
+		for _, cs := range callers {
+			if cs.In == nil || cs.Dynamic || cs.In.RecvObj() == nil {
+				all = false
+				break
+			}
+			sel, isSel := core.Unparen(cs.Call.Fun).(*ast.SelectorExpr)
+			if !isSel || core.ObjOf(cs.In.Pkg.TypesInfo, sel.X) != cs.In.RecvObj() {
+				all = false
+				break
+			}
+			cg := p.Graph(cs.In)
+			boundedDepth++
+			ok := boundedByValidatingMethod(p, cs.In, cg, cg.NodeOf(cs.Call.Pos()), cs.In.RecvObj().Name()+"."+field)
+			boundedDepth--
+			if !ok {
+				all = false
+				break
+			}
+		}
+		if all {
+			return true
+		}
+	}
+	for _, d := range g.Dominators(n) {
+		if d.Kind != core.KEdge || d.Ast == nil {
+			continue
+		}
+		ce, isE := d.Ast.(ast.Expr)
+		if !isE {
+			continue
+		}
+		x, isNil, isCmp := core.NilCompare(info, ce)
+		if !isCmp || isNil != d.Truth {
+			continue
+		}
+		eo := core.ObjOf(info, x)
+		if eo == nil || !core.IsErrorType(eo.Type()) {
+			continue
+		}
+		for _, dd := range g.Dominators(d) {
+			as, isAs := dd.Ast.(*ast.AssignStmt)
+			if dd.Kind != core.KStmt || !isAs || len(as.Rhs) != 1 || core.ObjOf(info, as.Lhs[len(as.Lhs)-1]) != eo {
+				continue
+			}
+			c, isCall := core.Unparen(as.Rhs[0]).(*ast.CallExpr)
+			if !isCall {
+				continue
+			}
+			sel, isSel := core.Unparen(c.Fun).(*ast.SelectorExpr)
+			if !isSel || core.ObjOf(info, sel.X) != rv {
+				continue
+			}
+			fo := core.Callee(info, c)
+			if fo == nil {
+				continue
+			}
+			m := p.ByObj[fo.Origin()]
+			if m == nil || m.Body == nil || m.RecvObj() == nil {
+				continue
+			}
+			if methodBoundsField(p, m, field, 0) {
+				return true
+			}
+		}
+	}
+	return false
+}
+
+// methodBoundsField: every success return of method m knows an upper bound of the receiver's field, or hands on the answer
+// of another method of the receiver that does (return i.checkCapacity(n)).
+func methodBoundsField(p *core.Prog, m *core.Func, field string, depth int) bool {
+	if m == nil || m.Body == nil || m.RecvObj() == nil || depth > 2 {
+		return false
+	}
+	mi := m.Pkg.TypesInfo
+	mg := p.Graph(m)
+	mv := m.RecvObj().Name() + "." + field
+	nRet, nOK := 0, 0
+	for _, rn := range mg.Returns() {
+		res := returnResults(rn)
+		if len(res) > 0 {
+			if c, isCall := core.Unparen(res[len(res)-1]).(*ast.CallExpr); isCall {
+				if sel, isSel := core.Unparen(c.Fun).(*ast.SelectorExpr); isSel && core.ObjOf(mi, sel.X) == m.RecvObj() {
+					if fo := core.Callee(mi, c); fo != nil {
+						nRet++
+						if methodBoundsField(p, p.ByObj[fo.Origin()], field, depth+1) {
+							nOK++
+						}
+						continue
+					}
+				}
+			}
+		}
+		if definitelyErrorReturn(mg, m, rn) || returnsFailure(m, rn) {
+			continue
+		}
+		nRet++
+		for _, fc := range mg.FactsAt(rn) {
+			if upperBoundFact(fc, mv) && mg.FactFresh(fc, rn) {
+				nOK++
+				break
+			}
+		}
+	}
+	return nRet > 0 && nOK == nRet
 }
